@@ -590,6 +590,16 @@ func (r *runner) reloadModel() {
 // twins legitimately diverge (a merge rejected by a unique index).
 func (r *runner) history() *hx.Failure {
 	for step, op := range r.c.Ops {
+		if op.Kind == "toggleindex" {
+			if len(r.c.Idx) == 0 {
+				continue
+			}
+			op.Kind = "mkindex"
+			if r.exists[op.N%len(r.c.Idx)] {
+				op.Kind = "dropindex"
+			}
+			r.label("op:index-toggled-between-merges")
+		}
 		switch op.Kind {
 		case "create":
 			k := r.nextK
@@ -778,6 +788,9 @@ func (r *runner) history() *hx.Failure {
 				continue
 			}
 			m := msgs[op.N%len(msgs)]
+			if op.Last {
+				m = msgs[len(msgs)-1]
+			}
 			errA := guard(func() error { return r.cl.Deliver(m, nodeA) })
 			errB := guard(func() error { return r.cl.Deliver(m, nodeB) })
 			if pe, ok := errB.(*panicErr); ok {
